@@ -83,13 +83,13 @@ using XRI = nop::Result<OpErr, int>;
 using XRV = nop::Result<OpErr, void>;
 using XST = nop::Status<int>;
 
-enum SlotId { O1A, O1B, OI, OI2, OL, EN, O2, OC, R1A, R1B, RI, RV, RV2, ST, NSLOT };
-static const char* const kSlotName[NSLOT] = {"O1a", "O1b", "Oi", "Oi2", "Ol", "En", "O2", "Oc", "R1a", "R1b", "Ri", "Rv", "Rv2", "St"};
+enum SlotId { O1A, O1B, OI, OI2, OL, EN, O2, OC, R1A, R1B, RI, RV, RV2, ST, EN2, NSLOT };
+static const char* const kSlotName[NSLOT] = {"O1a", "O1b", "Oi", "Oi2", "Ol", "En", "O2", "Oc", "R1a", "R1b", "Ri", "Rv", "Rv2", "St", "En2"};
 static const char* const kSlotType[NSLOT] = {"Optional<Tracked<1>>", "Optional<Tracked<1>>", "Optional<int>", "Optional<int>", "Optional<long>", "Entry<Tracked<1>,7>",
                                              "Optional<Tracked<2>>", "Optional<Conv:Tracked<2>>", "Result<Err,Tracked<1>>", "Result<Err,Tracked<1>>",
-                                             "Result<Err,int>", "Result<Err,void>", "Result<Err,void>", "Status<int>"};
+                                             "Result<Err,int>", "Result<Err,void>", "Result<Err,void>", "Status<int>", "Entry<Tracked<1>,7>"};
 using Slots = std::tuple<std::unique_ptr<XO1>, std::unique_ptr<XO1>, std::unique_ptr<XOI>, std::unique_ptr<XOI>, std::unique_ptr<XOL>, std::unique_ptr<XEN>, std::unique_ptr<XO2>,
-                         std::unique_ptr<XOC>, std::unique_ptr<XR1>, std::unique_ptr<XR1>, std::unique_ptr<XRI>, std::unique_ptr<XRV>, std::unique_ptr<XRV>, std::unique_ptr<XST>>;
+                         std::unique_ptr<XOC>, std::unique_ptr<XR1>, std::unique_ptr<XR1>, std::unique_ptr<XRI>, std::unique_ptr<XRV>, std::unique_ptr<XRV>, std::unique_ptr<XST>, std::unique_ptr<XEN>>;
 static_assert(std::tuple_size<Slots>::value == NSLOT, "slot table");
 
 template <class E> struct IsTracked : std::integral_constant<bool, std::is_base_of<T1, E>::value || std::is_base_of<T2, E>::value> {};
@@ -128,7 +128,7 @@ template <> OpErr err_of<OpErr>(uint64_t n) { return kErrs[n % 3]; }
 template <> nop::ErrorStatus err_of<nop::ErrorStatus>(uint64_t n) { return (nop::ErrorStatus)(1 + n % 18); }
 
 // Which objects may be the source of a copy/move ASSIGNMENT into slot a (admitted by libnop and compiling).
-static constexpr bool is_o1(int x) { return x == O1A || x == O1B || x == EN; }
+static constexpr bool is_o1(int x) { return x == O1A || x == O1B || x == EN || x == EN2; }
 static constexpr bool is_r1(int x) { return x == R1A || x == R1B; }
 static constexpr bool is_oi(int x) { return x == OI || x == OI2; }
 static constexpr bool is_rv(int x) { return x == RV || x == RV2; }
@@ -138,7 +138,7 @@ static constexpr bool asg_ok(int a, int b) {
 }
 // ... and of a copy/move CONSTRUCTION of the type of slot a (Entry has no constructor from Optional; there
 // is no constructor from Optional<U>).
-static constexpr bool ctor_ok(int a, int b) { return a == b || ((a == O1A || a == O1B) && is_o1(b)) || (is_oi(a) && is_oi(b)) || (is_r1(a) && is_r1(b)) || (is_rv(a) && is_rv(b)); }
+static constexpr bool ctor_ok(int a, int b) { return a == b || ((a == EN || a == EN2) && (b == EN || b == EN2)) || ((a == O1A || a == O1B) && is_o1(b)) || (is_oi(a) && is_oi(b)) || (is_r1(a) && is_r1(b)) || (is_rv(a) && is_rv(b)); }
 
 template <class F, size_t... I>
 static void visit_impl(Slots& s, int i, F&& f, std::index_sequence<I...>) {
@@ -649,6 +649,20 @@ static int cmp_eval_entry(bool mixed, int shape, int op, Opd l, Opd r) {
   const int va = l.v;
   return apply_cmp(op, va, cb) ? 1 : 0;
 }
+// Optional<Optional<int>> against itself. Operand states: empty; holding an EMPTY inner optional (encoded as the
+// value kInnerEmpty); holding an inner value. Order: empty < holds(empty inner) < holds(inner value), values decide.
+static const int kInnerEmpty = -1000000;
+static int cmp_eval_nested(int shape, int op, Opd l, Opd r) {
+  if (shape != 0) return -1;
+  using OO = nop::Optional<nop::Optional<int>>;
+  // in-place construction: assigning an Optional<int> to an Optional<Optional<int>> is the CONVERTING assignment
+  // (an empty source empties the outer optional)
+  auto make = [](Opd o) { return !o.has ? OO{} : o.v == kInnerEmpty ? OO{nop::InPlace{}} : OO{nop::InPlace{}, o.v}; };
+  OO a = make(l), b = make(r);
+  if (a.empty() != !l.has || b.empty() != !r.has) return -1;   // harness self-check
+  const OO& ca = a; const OO& cb = b;
+  return apply_cmp(op, ca, cb) ? 1 : 0;
+}
 static bool ref_cmp_half(int op, Opd l, Opd r) {
   const double lv = l.v, rv = r.v + 0.5;
   const int c = l.has != r.has ? (l.has ? 1 : -1) : (!l.has ? 0 : (lv < rv ? -1 : (lv > rv ? 1 : 0)));
@@ -666,6 +680,7 @@ static std::string cmp_check(const std::string& type, int shape, int op, Opd l, 
   else if (type == "tracked") got = cmp_eval<T1, T1>(shape, op, l, r);
   else if (type == "int-long") got = cmp_eval<int, long>(shape, op, l, r);
   else if (type == "int-half") got = cmp_eval_half(shape, op, l, r);
+  else if (type == "nested") got = cmp_eval_nested(shape, op, l, r);
   else if (type == "entry") got = cmp_eval_entry(false, shape, op, l, r);
   else if (type == "opt-entry") got = cmp_eval_entry(true, shape, op, l, r);
   else return "skip";
@@ -695,9 +710,8 @@ static std::string msg_check(long code) {
     if (code >= 0 && code <= (long)nop::ErrorStatus::DebugError) {
       if (!*mm) return "missing-message: " + which + "::GetErrorMessage() is empty for ErrorStatus " + std::to_string(code) + " (" + err_name((int)code) + ")";
       if (fallback == mm) return "missing-message: " + which + "::GetErrorMessage() is the unknown-error fallback \"" + fallback + "\" for ErrorStatus " + std::to_string(code) + " (" + err_name((int)code) + ")";
-    } else if (fallback != mm) {
-      return "missing-message: " + which + "::GetErrorMessage() for the non-enumerator " + std::to_string(code) + " is \"" + mm + "\", not the fallback \"" + fallback + "\"";
     }
+    // nothing is promised for values that are not enumerators (only that the call returns)
   }
   return "";
 }
@@ -717,7 +731,8 @@ static std::vector<Scene> scenes() {
                   mkop(COPY, R1A, R1B), mkop(MOVE, R1B, R1A), mkop(ARM, 0), mkop(KILL, R1A), mkop(CERR, R1A, -1, 2), mkop(ASGS, R1A)}},
       {"entry", {mkop(ASGV, EN, -1, 1), mkop(ASGM, EN, O1A), mkop(ASGM, O1A, EN), mkop(ASGC, EN, O1A), mkop(ASGC, O1A, EN), mkop(ASGR, O1A, -1, 2),
                  mkop(COPY, EN, EN), mkop(MOVE, EN, EN), mkop(CLR, EN), mkop(TKC, EN), mkop(ASGC, EN, EN), mkop(ASGM, EN, EN), mkop(ARM, 0),
-                 mkop(ASGC, OC, EN), mkop(ASGM, OC, EN), mkop(ASUR, OC, -1, 3), mkop(CNVR, O2, -1, 4), mkop(ASGS, EN)}},
+                 mkop(ASGC, OC, EN), mkop(ASGM, OC, EN), mkop(ASUR, OC, -1, 3), mkop(CNVR, O2, -1, 4), mkop(ASGS, EN),
+                 mkop(ASGV, EN2, -1, 5), mkop(ASGM, EN, EN2), mkop(ASGM, EN2, EN), mkop(ASGC, EN2, EN), mkop(MOVE, EN2, EN)}},
       {"trivial", {mkop(ASGV, OI, -1, 1), mkop(ASGR, OI2, -1, 2), mkop(ASGC, OI, OI2), mkop(ASGM, OI2, OI), mkop(ASGM, OI, OI2), mkop(ASGC, OL, OI), mkop(ASGM, OI, OL),
                    mkop(ASGM, OL, OI), mkop(ASUL, OI, -1, 3), mkop(CLR, OI), mkop(TKC, OI), mkop(COPY, OI2, OI), mkop(MOVE, OI, OI2), mkop(ASGM, OI, OI), mkop(KILL, OI2)}},
       {"void-status", {mkop(ASGE, RV, -1, 1), mkop(ASGE, RV2, -1, 2), mkop(ASGN, RV), mkop(ASGC, RV, RV2), mkop(ASGM, RV, RV2), mkop(ASGM, RV2, RV), mkop(ASGM, RV, RV),
@@ -834,13 +849,14 @@ int main(int argc, char** argv) {
 
   // ---- PART B ----
   if (a.shard == 0) {
-    for (const char* type : {"int", "tracked", "int-long", "int-half", "entry", "opt-entry"}) {
+    for (const char* type : {"int", "tracked", "int-long", "int-half", "entry", "opt-entry", "nested"}) {
       long cnt = 0;
       for (int shape = 0; shape < 3; shape++)
         for (int op = 0; op < 6; op++)
           for (int li = 0; li < 6; li++)
             for (int ri = 0; ri < 6; ri++) {
               Opd l = li ? Opd{true, kCmpValues[li - 1]} : Opd{false, 0}, r = ri ? Opd{true, kCmpValues[ri - 1]} : Opd{false, 0};
+              if (!strcmp(type, "nested")) { if (l.has && l.v == -3) l.v = kInnerEmpty; if (r.has && r.v == -3) r.v = kInnerEmpty; }
               std::string ct = cmp_case_text(type, shape, op, l, r);
               rep.current_case = ct; rep.current_detail = "comparison";
               std::string m = cmp_check(type, shape, op, l, r);
